@@ -519,6 +519,7 @@ func run(c Case) pbt.Verdict {
 				shapeCount[w] = shapes
 				scratch := make([]ranked, 0, len(members))
 				var kb [2]byte
+				heldGot, heldCopy, heldShard := make([][]string, len(rings)), make([][]string, len(rings)), make([]int, len(rings))
 				for shard := w; shard < nShards; shard += workers {
 					kb[0], kb[1] = byte(shard>>8), byte(shard)
 					shardHex := hex.EncodeToString(kb[:])
@@ -535,6 +536,13 @@ func run(c Case) pbt.Verdict {
 					var first []string
 					for ri, r := range rings {
 						got := r.Locations(d)
+						// A replica set handed out earlier is the caller's: a later lookup must not rewrite it.
+						if heldGot[ri] != nil && !equalStrings(heldGot[ri], heldCopy[ri]) {
+							fails[w] = &failure{heldShard[ri], fmt.Sprintf("the replica set returned for shard %04x by ring %d changed when shard %s was looked up afterwards: was %v, now %v (state %d)",
+								heldShard[ri], ri, shardHex, heldCopy[ri], heldGot[ri], si)}
+							return
+						}
+						heldGot[ri], heldCopy[ri], heldShard[ri] = got, append([]string(nil), got...), shard
 						if msg := judge(got, exp, unambiguous, memberSet, healthy, len(healthyList) > 0, c.MaxReplica); msg != "" {
 							fails[w] = &failure{shard, fmt.Sprintf("%s (state %d shard %s ring %d: got %v, statement prescribes %v; members %v healthy %v MaxReplica %d)",
 								msg, si, shardHex, ri, got, exp, members, healthyList, c.MaxReplica)}
